@@ -509,7 +509,13 @@ fn report(c: &Case, f: &Fail, order: u64, rep: &Report) {
     // shrinking re-runs the whole case (lock-step simulation over array values is expensive): it stops, keeping
     // what it has, 20 s after it began - a report must not take longer than the search
     let t0 = std::time::Instant::now();
-    let min = shrink_spec(&c.spec, &|s| t0.elapsed().as_secs() < 20 && matches!(check_case(s, c.named, c.pass, c.steps).0, Some(g) if g.class == class));
+    // (systems with array states or inputs are reported as found: one lock-step run of a shrink candidate over array
+    // values can take minutes, and the deadline is only looked at between candidates)
+    let min = if c.spec.has_arrays() {
+        c.spec.clone()
+    } else {
+        shrink_spec(&c.spec, &|s| t0.elapsed().as_secs() < 20 && matches!(check_case(s, c.named, c.pass, c.steps).0, Some(g) if g.class == class))
+    };
     let f2 = check_case(&min, c.named, c.pass, c.steps).0.filter(|g| g.class == class).unwrap_or_else(|| f.clone());
     // the root operator of the original function tells simplifier rules apart; for the zero pass
     // (one substitution, whatever the operator) only the slot kind is kept
